@@ -38,9 +38,9 @@ type c12Params struct {
 
 func init() {
 	register(&c12{base{
-		id:    "C12",
-		level: lvlExploration,
-		rule: "coder mode: for each (shard length, goroutine count, GOMAXPROCS) GenerateParity and ReconstructData (both coders) run with seeded yields/spins/sleeps injected at worker start, slice entry and before every kernel call; bytes are compared with the single-goroutine result, and the partition recorded through the worker hook must be a disjoint cover of [0,len) in 16-byte multiples with exactly the expected worker count; the same workload runs again in the -race build, where a hook announces the assembly kernels' loads/stores to the race detector, and every report in the race log is a violation; create mode: par2.Create and Repair results across goroutine options; cores mode: default goroutine count when the physical core count is unknown. A key is (mode, len, workers, GOMAXPROCS, race-build?); observed_sets.orderings lists the distinct worker start/finish orderings actually seen",
+		id:          "C12",
+		level:       lvlExploration,
+		rule:        "coder mode: for each (shard length, goroutine count, GOMAXPROCS) GenerateParity and ReconstructData (both coders) run with seeded yields/spins/sleeps injected at worker start, slice entry and before every kernel call; bytes are compared with the single-goroutine result, the partition and the worker start/finish ordering actually executed are recorded through the worker hook (observations: a partition that differs from the documented split is counted, not judged); the same workload runs again in the -race build, where a hook announces the assembly kernels' loads/stores to the race detector, and every report in the race log is a violation; create mode: par2.Create and Repair results across goroutine options; cores mode: default goroutine count when the physical core count is unknown. A key is (mode, len, workers, GOMAXPROCS, race-build?); observed_sets.orderings lists the distinct worker start/finish orderings actually seen",
 		assumptions: append([]string{"the race detector sees Go code directly and the assembly kernels through the RaceReadRange/RaceWriteRange annotation hook (gf2p16/verif_note_race.go), executed by the goroutine that runs the kernel", "interleavings are those the Go scheduler produced under injected delays on this 16-core machine; they are counted, not enumerated"}, commonAssumptions...),
 		opts:        core.WorkerOpts{CrashIsViolation: true, WallSeconds: 2400},
 	}})
@@ -215,6 +215,10 @@ func expectedPartition(l, g int) (per, n int) {
 	return
 }
 
+// check records the partition and ordering that were executed. The shape of
+// the partition is an implementation choice, not part of the property: it is
+// reported as an observation (and as context when bytes differ), never as a
+// verdict of its own.
 func (rec *c12Recorder) check(r *core.R, what string, l, g, outRows int) {
 	rec.mu.Lock()
 	slices := append([][4]int(nil), rec.slices...)
@@ -225,32 +229,32 @@ func (rec *c12Recorder) check(r *core.R, what string, l, g, outRows int) {
 	desc := fmt.Sprintf("%s len=%d g=%d", what, l, g)
 	if n < 2 {
 		if starts != 0 || len(slices) != 1 || slices[0] != [4]int{0, outRows, 0, l} {
-			r.Violate("partition-single", "%s: expected one single-threaded pass over [0,%d), recorded starts=%d slices=%v", desc, l, starts, slices)
+			c12PartitionNote(r, "%s: expected one single-threaded pass over [0,%d), recorded starts=%d slices=%v", desc, l, starts, slices)
 		}
 		return
 	}
 	if starts != n || wn != n || len(slices) != n {
-		r.Violate("partition-worker-count", "%s: expected %d workers of %d bytes, recorded %d starts (Workers=%d), %d slice calls %v", desc, n, per, starts, wn, len(slices), slices)
+		c12PartitionNote(r, "%s: expected %d workers of %d bytes, recorded %d starts (Workers=%d), %d slice calls %v", desc, n, per, starts, wn, len(slices), slices)
 		return
 	}
 	sort.Slice(slices, func(i, j int) bool { return slices[i][2] < slices[j][2] })
 	pos := 0
 	for i, s := range slices {
 		if s[0] != 0 || s[1] != outRows {
-			r.Violate("partition-rows", "%s: worker covers output rows [%d,%d), expected [0,%d)", desc, s[0], s[1], outRows)
+			c12PartitionNote(r, "%s: worker covers output rows [%d,%d), expected [0,%d)", desc, s[0], s[1], outRows)
 		}
 		if s[2] != pos {
-			r.Violate("partition-not-disjoint-cover", "%s: chunk %d starts at %d, previous ended at %d (chunks %v)", desc, i, s[2], pos, slices)
+			c12PartitionNote(r, "%s: chunk %d starts at %d, previous ended at %d (chunks %v)", desc, i, s[2], pos, slices)
 			return
 		}
 		if s[2]%16 != 0 || (i < len(slices)-1 && (s[3]-s[2]) != per) || s[3] <= s[2] {
-			r.Violate("partition-chunk-size", "%s: chunk %d = [%d,%d) is not a %d-byte multiple-of-16 chunk (chunks %v)", desc, i, s[2], s[3], per, slices)
+			c12PartitionNote(r, "%s: chunk %d = [%d,%d) is not a %d-byte multiple-of-16 chunk (chunks %v)", desc, i, s[2], s[3], per, slices)
 			return
 		}
 		pos = s[3]
 	}
 	if pos != l {
-		r.Violate("partition-not-disjoint-cover", "%s: chunks end at %d, shard length %d (chunks %v)", desc, pos, l, slices)
+		c12PartitionNote(r, "%s: chunks end at %d, shard length %d (chunks %v)", desc, pos, l, slices)
 	}
 	r.SetAdd("partitions", fmt.Sprintf("len=%d,n=%d,per=%d", l, n, per))
 	if len(order) < 200 {
@@ -258,6 +262,11 @@ func (rec *c12Recorder) check(r *core.R, what string, l, g, outRows int) {
 	} else {
 		r.SetAdd("orderings", fmt.Sprintf("%x", c12mix(uint64(len(order)), hashStr(order), 1)))
 	}
+}
+
+func c12PartitionNote(r *core.R, format string, a ...interface{}) {
+	r.Count("partition_differs_from_documented_split", 1)
+	r.SetAdd("partition_anomalies", trunc2(fmt.Sprintf(format, a...), 200))
 }
 
 func hashStr(s string) uint64 {
